@@ -155,7 +155,15 @@ func (w *World) step(t *Thread) {
 		}
 		f.regs[i] = Ptr{o: o}
 	case *ssa.Store:
-		w.store(t, w.val(f, i.Addr).(Ptr), w.val(f, i.Val))
+		ap := w.val(f, i.Addr).(Ptr)
+		w.store(t, ap, w.val(f, i.Val))
+		if i.Val.Type().String() == "sync.WaitGroup" && ap.o != nil {
+			// a plain overwrite of a WaitGroup (wg = sync.WaitGroup{}): the counter starts again from zero
+			// while goroutines that used the old value keep using this memory
+			k := key(ap)
+			delete(w.wgs, k)
+			delete(w.wgVC, k)
+		}
 	case *ssa.UnOp:
 		x := w.val(f, i.X)
 		switch i.Op {
